@@ -65,12 +65,11 @@ impl<'a> Rd<'a> {
 pub type Ids = BTreeMap<Pubkey, String>;
 
 pub fn idof(ids: &Ids, k: &Pubkey) -> String {
-    if *k == Pubkey::default() {
-        return "none".to_string();
-    }
+    // note: the all-zero key is both "no key" in account fields and the System program's address
     match ids.get(k) {
-        Some(s) => s.clone(),
-        None => format!("?{}", &k.to_string()[..8]),
+        Some(s) if *k != Pubkey::default() => s.clone(),
+        _ if *k == Pubkey::default() => "none".to_string(),
+        _ => format!("?{}", &k.to_string()[..8]),
     }
 }
 
@@ -300,6 +299,7 @@ pub fn project(bank: &Bank, ids: &Ids) -> Value {
                     "mintA": id(&ma), "vaultA": id(&va), "fgA": nu(fga), "mintB": id(&mb), "vaultB": id(&vb), "fgB": nu(fgb),
                     "rewardTs": nu(rts as u128), "rewards": rewards, "rewardAuth": id(&Pubkey::new_from_array(exts[0])),
                     "flags": flags, "ext2zero": exts[2] == [0u8; 32], "ext1rest": exts[1][2..] == [0u8; 30],
+                    "oracleId": id(&Pubkey::find_program_address(&[b"oracle", k.as_ref()], &wp_id).0),
                     "len": a.data.len()
                 }));
             } else if d == whirlpool::state::Position::DISCRIMINATOR {
